@@ -15,6 +15,7 @@ time); everything between that computation and the sleep request is instantaneou
 from __future__ import annotations
 
 import copy
+import random
 
 from .. import gen as G
 from ..clock import sec_to_us
@@ -29,7 +30,7 @@ KNOBS = {"p_firing_timeout": 0.1, "p_feedback": 0.4, "p_slow_feedback": 0.6, "p_
          "p_decisions": 0.1, "p_handler": 0.2, "p_ok": 0.08, "p_retryable": 0.95, "p_per_class": 0.15, "p_default": 0.95}
 RULE = ("seeded swarm with boundary-biased timings: deadline steered to elapsed-1us/==/+1us at a failure or after a "
         "sleep, sleeper overshoots, strategies asking for more than remains (and NaN/inf/negatives), wall-clock jumps "
-        "of seconds..days between any two clock reads; distinct by trace shape; non-trivial = >=1 failed attempt")
+        "of seconds..days between any two clock reads; 2-3 overlapping async calls on one policy object (per-call t0); distinct by trace shape; non-trivial = >=1 failed attempt")
 COMPONENTS = common.REAL_COMPONENTS
 ASSUMPTIONS = ["callbacks other than operation, sleeper and the strategy feedback hook take zero virtual time", "sleeper overshoot >= 0",
                "the sleep handler never defers past the envelope (DEFER ends the run)", "sampling, not proof"]
@@ -42,6 +43,22 @@ def gen(seed, tier="quick"):
         # the event loop keeps a clock of its own that does not advance while a callback blocks the loop (legal for
         # an event loop; virtual-time loops do it): the deadline is defined on the monotonic clock, not on loop.time()
         scn["cfg"]["loop_clock_lags"] = True
+    r = random.Random(seed ^ 0xC02)
+    if scn["mode"] == "async" and len(scn["calls"]) > 1 and scn["entry"] != "decorator" and r.random() < 0.6:
+        # overlapping calls on ONE policy object (tasks on the simulated loop): "from the start of the call" is per
+        # call -- a later call starting must not move an earlier, still running call's envelope.  Each call's t0 is
+        # its own CALL_BEGIN, so the rules are unchanged; start offsets and operation durations make the calls overlap.
+        scn["concurrent"] = True
+        # section 8 rule 3 ("at that moment" is one instant) must survive concurrency: a before_sleep hook that
+        # really suspends would let ANOTHER task's blocking callback move the clock between the clamp and the sleep
+        # request - the slow-hook case the convention excludes - so the hook is the plain (non-suspending) one here
+        scn["place"]["bs_async"] = False
+        for c in scn["calls"]:
+            c.pop("before", None)
+            c["start_us"] = r.choice([0, 0, 1000, 250_000, 600_000])
+            for st in c["attempts"]:
+                if st.get("dur", 0) == 0:
+                    st["dur"] = r.choice([0, 1000, 250_000, 500_000])
     return scn
 
 
